@@ -63,6 +63,9 @@ var wideQueries = []string{
 	`{ __schema { types { name kind fields { name } possibleTypes { name } enumValues { name } inputFields { name } } } }`,
 	`mutation { m1 { y u { ... on T2 { y } } } m3 { y z { y } } }`,
 	`{ a @d(p: 1, q: 2, r: 3, s: 4) b @cfg(o: {p: 1, r: K}, e: L) }`,
+	// argument-less fields whose resolvers write into / echo the argument map they were given
+	`{ a b c d echoNoArgs echoNoArgs2 t1 { echoNoArgsT w } nodes { ... on T2 { echoNoArgsT } ... on T3 { echoNoArgsT x } } }`,
+	`{ echoNoArgs2 aa ab echoNoArgs strict { echoNoArgsT nn } }`,
 	// enums whose names share an internal value / have none: serialised by every goroutine at once
 	`{ aliases alias a2: alias(x: CRIMSON) a3: alias(x: AZURE) nodes { ... on T1 { al als } ... on T2 { als } ... on T3 { al } ... on T4 { al als } } us { ... on Node { y } ... on T1 { als } } }`,
 	`{ echo(term: "x") node { ... on T1 { al echoT(tags: ["p"]) } ... on T2 { al } ... on T3 { als } ... on T4 { als } } aliases }`,
@@ -157,16 +160,71 @@ func buildSlowPlan() (*graphql.Schema, error) {
 	return &s, err
 }
 
+// orphanAbstract: abstract types whose runtime types are NOT among their possible types in the schema — an interface whose
+// only implementation was never listed in SchemaConfig.Types (so the interface has no possible type at all), an interface
+// with implementations whose resolver returns something else, a union whose resolver returns a non-member — while the
+// resolvers do return such values. Every request takes the "is not a possible type" path on the cold schema.
+func buildOrphanAbstract() (*graphql.Schema, error) {
+	type val struct{ kind, name string }
+	objs := map[string]*graphql.Object{}
+	rt := func(p graphql.ResolveTypeParams) *graphql.Object {
+		if v, ok := p.Value.(*val); ok {
+			return objs[v.kind]
+		}
+		return nil
+	}
+	name := &graphql.Field{Type: graphql.String, Resolve: func(p graphql.ResolveParams) (interface{}, error) { return p.Source.(*val).name, nil }}
+	pet := graphql.NewInterface(graphql.InterfaceConfig{Name: "Pet", Fields: graphql.Fields{"name": &graphql.Field{Type: graphql.String}}, ResolveType: rt})
+	beast := graphql.NewInterface(graphql.InterfaceConfig{Name: "Beast", Fields: graphql.Fields{"name": &graphql.Field{Type: graphql.String}}, ResolveType: rt})
+	// Dog implements Pet but is reachable from nowhere: Pet ends up without possible types
+	objs["Dog"] = graphql.NewObject(graphql.ObjectConfig{Name: "Dog", Interfaces: []*graphql.Interface{pet}, Fields: graphql.Fields{"name": name}})
+	objs["Wolf"] = graphql.NewObject(graphql.ObjectConfig{Name: "Wolf", Interfaces: []*graphql.Interface{beast}, Fields: graphql.Fields{"name": name}})
+	objs["Cat"] = graphql.NewObject(graphql.ObjectConfig{Name: "Cat", Fields: graphql.Fields{"name": name}})
+	objs["Fish"] = graphql.NewObject(graphql.ObjectConfig{Name: "Fish", Fields: graphql.Fields{"name": name}})
+	either := graphql.NewUnion(graphql.UnionConfig{Name: "Either", Types: []*graphql.Object{objs["Cat"]}, ResolveType: rt})
+	one := func(kind string) graphql.FieldResolveFn {
+		return func(p graphql.ResolveParams) (interface{}, error) { return &val{kind, kind + "!"}, nil }
+	}
+	many := func(kinds ...string) graphql.FieldResolveFn {
+		return func(p graphql.ResolveParams) (interface{}, error) {
+			var out []interface{}
+			for i, k := range kinds {
+				out = append(out, &val{k, fmt.Sprint(k, i)})
+			}
+			return out, nil
+		}
+	}
+	q := graphql.NewObject(graphql.ObjectConfig{Name: "Q", Fields: graphql.Fields{
+		"pet":     &graphql.Field{Type: pet, Resolve: one("Dog")},
+		"pets":    &graphql.Field{Type: graphql.NewList(pet), Resolve: many("Dog", "Cat", "Dog")},
+		"beast":   &graphql.Field{Type: beast, Resolve: one("Cat")},
+		"beasts":  &graphql.Field{Type: graphql.NewList(beast), Resolve: many("Wolf", "Fish", "Wolf", "Dog")},
+		"either":  &graphql.Field{Type: either, Resolve: one("Fish")},
+		"eithers": &graphql.Field{Type: graphql.NewList(either), Resolve: many("Cat", "Fish", "Wolf")},
+		"ok":      &graphql.Field{Type: graphql.Int, Resolve: func(p graphql.ResolveParams) (interface{}, error) { return 1, nil }},
+	}})
+	s, err := graphql.NewSchema(graphql.SchemaConfig{Query: q, Types: []graphql.Type{objs["Wolf"], objs["Fish"]}})
+	return &s, err
+}
+
+var orphanQueries = []query{
+	{Q: `{ pet { name } ok }`},
+	{Q: `{ pets { name } beast { name } beasts { name ... on Wolf { name } } }`},
+	{Q: `{ either { __typename ... on Cat { name } } eithers { ... on Cat { name } } pet { __typename } }`},
+	{Q: `{ __type(name: "Pet") { possibleTypes { name } } pets { name } ok }`},
+}
+
 var slowPlanQueries = []query{
 	{Q: `{ pets { __typename ... on Dog { name say(v: 3) friend { ... on Cat { name say(v: 2) friend { ... on Dog { say(v: 1) } } } } } ... on Cat { name say(v: 5) pack { name ... on Bird { say(v: 4) } } } ... on Bird { name } } }`},
 	{Q: `{ named { name ... on Dog { say(v: 7) pack { ... on Cat { say(v: 1) } ... on Dog { name say(v: 6) } } } ... on Cat { say(v: 8) } } pet { ... on Dog { say(v: 2) friend { ... on Cat { say(v: 9) } } } } }`},
 	{Q: `{ pet { __typename ... on Dog { name say(v: 3) } ... on Cat { name } } }`},
 }
 
-func descScenario(name string, desc *gq.SchemaDesc, qs []query, errors, thunks bool) scenario {
+// mutate: the resolvers write into the argument map they receive (also an empty one) and modify argument values in place
+func descScenario(name string, desc *gq.SchemaDesc, qs []query, errors, thunks, mutate bool) scenario {
 	return scenario{Name: name, Queries: qs, build: func() (*graphql.Schema, error) {
 		w := detworld.New(desc, 11)
-		w.Errors, w.Thunks = errors, thunks
+		w.Errors, w.Thunks, w.MutateArgs = errors, thunks, mutate
 		b, err := gq.Build(desc, w.Hooks())
 		if err != nil {
 			return nil, err
@@ -183,10 +241,14 @@ func scenarios(seed uint64, thorough bool) []scenario {
 		wq = append(wq, query{Q: q, Vars: wideVars})
 	}
 	wide := detworld.Wide()
-	out = append(out, descScenario("wide", wide, wq, false, false))
-	out = append(out, descScenario("wide+errors+thunks", wide, wq, true, true))
+	out = append(out, descScenario("wide", wide, wq, false, false, false))
+	out = append(out, descScenario("wide+mutargs", wide, wq, false, false, true))
+	out = append(out, descScenario("wide+errors+thunks", wide, wq, true, true, true))
 	out = append(out, scenario{Name: "dirOnly", build: buildDirOnly, Queries: []query{
 		{Q: `{ a @cfg(o: {p: 1, r: K}, e: L) }`}, {Q: `{ a2: a @cfg(o: {p: "x", r: Z}, e: 3) a }`}, {Q: `{ a }`}}})
+	for k := 0; k < 2; k++ {
+		out = append(out, scenario{Name: "orphanAbstract", build: buildOrphanAbstract, Queries: orphanQueries})
+	}
 	// three entries = three times the weight: these rounds are the ones that can see a lazy initialiser whose check and
 	// store are not one critical section (all accesses locked, no race report, wrong answer)
 	for k := 0; k < 3; k++ {
@@ -213,7 +275,7 @@ func scenarios(seed uint64, thorough bool) []scenario {
 			}
 			qs = append(qs, query{Q: text, Op: op, Vars: vars})
 		}
-		out = append(out, descScenario(fmt.Sprintf("gen%d", i), desc, qs, i%2 == 1, i%3 == 1))
+		out = append(out, descScenario(fmt.Sprintf("gen%d", i), desc, qs, i%2 == 1, i%3 == 1, i%2 == 0))
 	}
 	return out
 }
